@@ -38,7 +38,7 @@ Print Assumptions C13_nothing_after_wait.
 
 Theorem C13_no_write_closure_after_wait : forall s, Quiet s -> ct_exited s = true -> step s CT_IO = None.
 Proof.
-  intros s (P & O & _) X. unfold step, is_idle. rewrite P, X. reflexivity.
+  intros s (P & O & _) X. unfold step, serving, is_idle. rewrite P, X. reflexivity.
 Qed.
 Print Assumptions C13_no_write_closure_after_wait.
 
